@@ -590,6 +590,12 @@ pub fn run_check(spec: &PropSpec, args: &CheckArgs) -> i32 {
         eprintln!("HARNESS ERROR: cannot write {}", evpath);
         return 2;
     }
+    if args.tier == "thorough" {
+        // a copy that the next quick run does not overwrite
+        let d = format!("{}/evidence-thorough", args.verif_dir);
+        let _ = std::fs::create_dir_all(&d);
+        let _ = std::fs::write(format!("{}/{}.json", d, spec.id), ev.to_string_pretty());
+    }
     println!(
         "{}: {} runs ({} steps, {:.0} simulated s) in {:.1}s; distinct non-trivial {}; distinct histories {}; violations {}; known findings {}",
         spec.id,
